@@ -620,6 +620,16 @@ func adjustAdaptationSetForTimelineNr(se segEntries, as *m.AdaptationSetType, st
 }
 
 func adjustAdaptationSetForSegmentNumber(cfg *ResponseConfig, a *asset, as *m.AdaptationSetType) error {
+	// Segment number n is served as the segment starting at n times the average duration of the loaded (reference)
+	// segments. A duration attribute of the VoD MPD is only nominal (the last segment may be shorter): it is kept
+	// as long as it is that average, otherwise the average is announced.
+	if st := as.SegmentTemplate; st.Duration != nil && as.ContentType != "image" && a.refRep != nil && len(a.refRep.Segments) > 0 {
+		nominal := uint64(*st.Duration) * uint64(a.refRep.MediaTimescale) * uint64(len(a.refRep.Segments))
+		average := uint64(a.refRep.duration()) * uint64(st.GetTimescale())
+		if nominal != average {
+			st.Duration = nil
+		}
+	}
 	if as.SegmentTemplate.Duration == nil {
 		r0 := as.Representations[0]
 		rep0 := a.Reps[r0.Id]
